@@ -32,6 +32,8 @@ pub struct MutexScn {
     /// the sink's refusals are reported with kind WouldBlock (as a non-blocking socket would)
     pub would_block: bool,
     pub prog: Vec<String>,
+    /// scheduling points also right after every unlock / send / store / read-modify-write
+    pub post_points: bool,
     pub text: String,
 }
 
@@ -43,6 +45,7 @@ pub fn scenario(spec: &crate::Spec) -> MutexScn {
         queue: spec.opt_usize("q"),
         via_client: spec.str("via", "sink") == "client",
         prog: spec.str("prog", "E.E").split('.').map(|s| s.to_string()).collect(),
+        post_points: spec.usize("pp", 0) == 1,
         text: spec.raw.clone(),
     }
 }
@@ -92,6 +95,10 @@ impl Recv {
 impl Scenario for MutexScn {
     fn name(&self) -> String {
         self.text.clone()
+    }
+
+    fn post_points(&self) -> bool {
+        self.post_points
     }
 
     fn make(&self) -> (Box<dyn FnOnce() + Send + 'static>, Box<dyn FnOnce(&EndState) -> Verdict + Send + 'static>) {
